@@ -133,6 +133,7 @@ type Outcome struct {
 	Events int `json:"events,omitempty"`
 	FaultFired bool `json:"fault_fired,omitempty"`
 	LeakedTasks int `json:"leaked_tasks,omitempty"`
+	Tasks int `json:"tasks,omitempty"` // goroutines of the call, the caller included
 }
 
 // Event is one Monitor.Log delivery.
